@@ -2238,7 +2238,8 @@ fn header_flags(d: &[u8]) -> i128 {
 /// Twin runs for determinism / time-translation / spurious-call checks (C20): key 901 selects
 /// how the SECOND run differs: 1 identical, 2 every instant shifted by 977_777_777 us,
 /// 3 spurious handle_timeout/poll calls and early wake-ups added (driver choices use their own
-/// PRNG stream, the network's choices are unchanged), 4 timers serviced late by up to 3 ms.
+/// PRNG stream, the network's choices are unchanged), 4 timers serviced late by up to 3 ms,
+/// 5 a busy-polling driver (every microsecond while a deadline is at most 20 ms away).
 /// Output: trace of run A, record [99], trace of run B.
 pub fn run_case(ops: &[Vec<i128>]) -> Vec<Vec<i128>> {
     let p = P::from_ops(ops);
@@ -2252,6 +2253,7 @@ pub fn run_case(ops: &[Vec<i128>]) -> Vec<Vec<i128>> {
         2 => vec![k::SHIFT_US, p.get(k::SHIFT_US, 0) + 977_777_777],
         3 => vec![k::SPURIOUS, 300, k::EARLY_POLL, 300],
         4 => vec![k::LATE_US, 3000],
+        5 => vec![k::BUSY_NEAR_US, 20000],
         _ => vec![],
     };
     // later pairs override earlier ones
